@@ -2500,7 +2500,15 @@ class Glommer:
 
         # this "freezes" the scope in at the time of construction
         self.scope = ChainMap(dict(scope))
-        self.scope[TargetRegistry] = TargetRegistry(register_default_types=register_default_types)
+        registry = TargetRegistry(register_default_types=register_default_types)
+        # operations added through register_op() (e.g. 'assign' and
+        # 'delete' from glom.mutation) are part of what glom supports
+        base_registry = scope.get(TargetRegistry)
+        if base_registry is not None:
+            for op_name, auto_func in base_registry._op_auto_map.items():
+                if op_name not in registry._op_auto_map:
+                    registry.register_op(op_name, auto_func=auto_func)
+        self.scope[TargetRegistry] = registry
 
     def register(self, target_type, **kwargs):
         """Register *target_type* so :meth:`~Glommer.glom()` will
